@@ -227,6 +227,26 @@ def _fresh(ctx, fn: FunctionInfo, e: ast.AST, use: ast.AST, depth: int = 0, trai
     cfg = ctx.cfg(fn)
     if isinstance(e, ast.Call) and isinstance(e.func, ast.Attribute) and e.func.attr in GEN_METHODS:
         return "fresh", trail + [f"{fn.qualname}: {A.unparse(e)[:60]}"]
+    if isinstance(e, ast.IfExp):
+        # a name chosen by a condition: under a use that is guarded by the same condition only one arm counts
+        from .ctrl import _guard_conditions as _gci
+
+        ug = dict(_gci(fn.node, use))
+        t_, p_ = A.unparse(e.test), True
+        tt = e.test
+        while isinstance(tt, ast.UnaryOp) and isinstance(tt.op, ast.Not):
+            tt, p_ = tt.operand, not p_
+            t_ = A.unparse(tt)
+        if t_ in ug:
+            arm = e.body if ug[t_] == p_ else e.orelse
+            return _fresh(ctx, fn, arm, use, depth + 1, trail + [f"{fn.qualname}: arm of '{A.unparse(e)[:40]}' selected by the guard of the use"])
+        a_, b_ = _fresh(ctx, fn, e.body, use, depth + 1, trail), _fresh(ctx, fn, e.orelse, use, depth + 1, trail)
+        if a_[0] == b_[0]:
+            return a_
+        for k in ("literal", "existing", "unknown"):
+            for v_ in (a_, b_):
+                if v_[0] == k:
+                    return v_
     if isinstance(e, ast.Constant):
         return "literal", trail + [f"{fn.qualname}: literal {e.value!r}"]
     if isinstance(e, ast.JoinedStr) or isinstance(e, ast.BinOp):
@@ -273,7 +293,8 @@ def _fresh(ctx, fn: FunctionInfo, e: ast.AST, use: ast.AST, depth: int = 0, trai
                 continue
             ap = _assign_parts(d.stmt)
             if ap is not None:
-                verdicts.append(_fresh(ctx, fn, ap[1], d.stmt, depth + 1, trail))
+                # (a conditional expression is resolved against the guards of the *use*)
+                verdicts.append(_fresh(ctx, fn, ap[1], use if isinstance(ap[1], ast.IfExp) else d.stmt, depth + 1, trail))
             elif d.kind == "for":
                 verdicts.append(("existing", trail + [f"{fn.qualname}: {e.id} iterates {A.unparse(d.stmt.iter)[:40]}"]))
             else:
